@@ -142,7 +142,13 @@ def read_auth_middle(repo):
         source = "RoutedPath"
     else:
         raise Refuse("%s: `%s` is neither request.path() nor request.match_info().as_str()" % (rel, path_stmt))
-    ic = txt(find_stmt(body, ["let", "is_check_path", "="]))
+    ic_stmt = find_stmt(body, ["let", "is_check_path", "="])
+    ic = txt(ic_stmt)
+    if ic != EXPECT_IS_CHECK:
+        # the decision extracted into a helper function of the same file (one tail expression): inline it
+        inl = rp.inline_call(ic_stmt, f.find_fns(), rel)
+        if inl is not None:
+            ic = txt(inl)
     if ic != EXPECT_IS_CHECK:
         raise Refuse("%s: the is_check_path decision changed: `%s`" % (rel, ic))
     return dict(ignore=ignore, skipped=skipped, api_lit=api_lit, rn_lit=rn_lit,
